@@ -4,7 +4,7 @@ from common import R_ASSUME, ENV_MODEL
 
 UNITS = ['repo:bignum.c', 'kit:env.c', 'kit:libc_models.c']
 H = 'C04_bignum.c'
-OPN = {'ADD': 1, 'SUB': 2, 'CMP': 3, 'NORM': 4, 'FXADD': 5, 'FXSUB': 6, 'F2B': 7, 'LSINT': 8, 'LUINT': 9, 'ADDFIX': 10,
+OPN = {'ADDD': 15, 'SUBD': 16, 'ADD': 1, 'SUB': 2, 'CMP': 3, 'NORM': 4, 'FXADD': 5, 'FXSUB': 6, 'F2B': 7, 'LSINT': 8, 'LUINT': 9, 'ADDFIX': 10,
        'GADD': 11, 'GSUB': 12, 'GCMP': 13, 'COPY': 14}
 FUNCTIONS = ['sexp_bignum_add', 'sexp_bignum_sub', 'sexp_bignum_add_digits', 'sexp_bignum_sub_digits', 'sexp_bignum_compare',
              'sexp_bignum_compare_abs', 'sexp_bignum_hi', 'sexp_bignum_zerop', 'sexp_bignum_normalize', 'sexp_bignum_fxadd',
@@ -37,7 +37,7 @@ def queries(tier):
     def q(name, defs, fns, unwind=5, backends=('cadical', 'minisat'), **kw):
         defs = dict(defs)
         defs.setdefault('KIT_MAXW', 4)
-        qs.append(Query(name=name, harness=H, units=UNITS, defs=defs, unit_defs={'KIT_FLAT_NUMERIC': 1}, unwind=unwind, cap=cap,
+        qs.append(Query(name=name, harness=H, units=UNITS, defs=defs, unit_defs={'KIT_FLAT_NUMERIC': 1, 'KIT_MAX_WORDS': 8}, unwind=unwind, cap=cap,
                         backends=list(backends), functions=fns, **kw))
     for op in ('ADD', 'SUB'):
         for a in range(1, K + 1):
@@ -48,6 +48,14 @@ def queries(tier):
                 q('bignum_%s[%d,%d,dst=a]' % (op.lower(), a, b), {'OP': OPN[op], 'AK': a, 'BK': b, 'ALIAS': 1}, ['sexp_bignum_' + op.lower()], backends=pf)
         if tier != 'quick':
             q('bignum_%s[2,2,dst=3]' % op.lower(), {'OP': OPN[op], 'AK': 2, 'BK': 2, 'DSTK': 3}, ['sexp_bignum_' + op.lower()], backends=pf)
+    # magnitude kernels with concrete lengths (top words non-zero): cheap enough for the quick tier at 2x2 and 3x2
+    for a in range(1, K + 2):
+        for b in range(1, K + 1):
+            if b > a or (tier == 'quick' and a + b > 5):
+                continue
+            w = a + 1
+            q('add_digits[%d,%d]' % (a, b), {'OP': OPN['ADDD'], 'AK': a, 'BK': b, 'KIT_MAXW': w, 'WIDE_BITS': 64 * w + 64}, ['sexp_bignum_add_digits'], backends=pf)
+            q('sub_digits[%d,%d]' % (a, b), {'OP': OPN['SUBD'], 'AK': a, 'BK': b, 'KIT_MAXW': w, 'WIDE_BITS': 64 * w + 64}, ['sexp_bignum_sub_digits'], backends=pf)
     for a in range(1, K + 1):
         for b in range(1, K + 1):
             q('compare[%d,%d]' % (a, b), {'OP': OPN['CMP'], 'AK': a, 'BK': b},
